@@ -135,7 +135,7 @@ CHECKS = {
     },
     "C03": {
         "id": "C03",
-        "spec_ops": ["w.dec"],
+        "spec_ops": ["w.dec", "w.val"],
         "engine": "wire",
         "trusted_base": COMMON_TB + [
             "modelled, not verified: std::str::from_utf8 (RFC 3629 validity, Utf8.valid; tied by corrupted / random byte strings), Vec / slices as lists, HashMap as the entry list in its iteration order (the order is an input; decoded maps are compared after last-wins deduplication and sorting)",
